@@ -50,6 +50,12 @@ pub struct World {
     /// Once the real bus has unwound its state is not trusted any more.
     pub dead: bool,
     pub delivered: u64,
+    pub delivery_cap: u64,
+    /// Set once `delivery_cap` is reached; buses then refuse further traffic so controllers stop.
+    pub capped: bool,
+    /// Is hitting the cap a violation of the scenario's property (an operation that must
+    /// succeed does not end) or just the end of the run (a traffic source that does not stop)?
+    pub cap_is_violation: bool,
     /// True number of data chunks the (first) sign has counted, for count-aware generators.
     pub log_messages: bool,
 }
@@ -89,6 +95,9 @@ impl World {
             track_states: true,
             dead: false,
             delivered: 0,
+            delivery_cap: 60_000,
+            capped: false,
+            cap_is_violation: false,
             log_messages: true,
         })))
     }
@@ -107,6 +116,23 @@ impl World {
             return None;
         }
         self.delivered += 1;
+        // Bounded liveness: no scenario needs anywhere near this many deliveries in one run; a
+        // controller that polls a sign for ever ends here instead of hanging the batch.
+        if self.delivered >= self.delivery_cap {
+            if !self.capped {
+                self.capped = true;
+                if self.cap_is_violation {
+                    self.cx.fail(
+                        format!("{}/liveness-message-cap", self.prop),
+                        format!("{} messages delivered in one run without the operation finishing (last: {})", self.delivered, show(m)),
+                    );
+                } else {
+                    // the traffic source (a controller) does not stop: not this property's business
+                    self.cx.probe("run_cut_at_message_cap");
+                }
+            }
+            return None;
+        }
         let bus = &mut self.bus;
         let res = catch(|| bus.process_message(m.clone()));
         let reply: Option<Message<'static>> = match res {
@@ -238,7 +264,12 @@ pub struct DirectBus(pub SharedWorld);
 
 impl SignBus for DirectBus {
     fn process_message<'a>(&mut self, message: Message<'_>) -> BusResult<'a> {
-        Ok(self.0.lock().deliver(&message))
+        let mut w = self.0.lock();
+        if w.cx.failed() || w.capped {
+            // a violation has been recorded: stop whatever controller is still talking
+            return Err(Box::new(SimBusError("run is over")));
+        }
+        Ok(w.deliver(&message))
     }
 }
 
@@ -399,6 +430,9 @@ impl SignBus for FaultyBus {
     fn process_message<'a>(&mut self, message: Message<'_>) -> BusResult<'a> {
         let idx = self.msg_index;
         self.msg_index += 1;
+        if self.cx.failed() || self.world.lock().capped {
+            return Err(Box::new(SimBusError("run is over")));
+        }
         if self.crashed {
             self.cx.probe("message_after_crash");
             return Err(Box::new(SimBusError("controller crashed")));
